@@ -5,7 +5,7 @@ monotonicity, and the bounded-liveness argument "the gap to the best homophone c
 All statements are over the generated constants (`Gen/Estimate.lean`); they are unfolded to the literals
 of the current source before `omega` / kernel evaluation.
 -/
-namespace Chewing
+namespace Chewing.Learn
 open Gen.Est
 
 /-! ### No-panic precondition (exact) -/
@@ -192,4 +192,4 @@ theorem learnIter_top (fy f : Nat) (hy : fy ≤ freqBound) (hf : f ≤ fy) (k : 
     show fy < learnStep fy (learnIter fy (closeSteps + 1 + j) f)
     exact learnStep_reach fy _ hy' (Nat.le_of_lt ih)
 
-end Chewing
+end Chewing.Learn
